@@ -62,8 +62,14 @@ def classify_quantity(vt):
   return None
 
 
+def _bt(b):
+  return norm(b) if b is not None else 'no bound'
+
+
 def tol_bounds_ok(lo, hi, tolname):
   """lo == 1/(1+tol) and hi == 1+tol, algebraically."""
+  if lo is None or hi is None:
+    return False
   t = sym.symbol('tol', positive=True)
 
   def leaf(e):
@@ -78,6 +84,8 @@ def tol_bounds_ok(lo, hi, tolname):
 
 
 def range_bounds_ok(lo, hi, pname):
+  if lo is None or hi is None:
+    return False      # one-sided test: half of the range is not enforced
   return norm(lo) == '%s%s[0]' % (P, pname) and norm(hi) == '%s%s[1]' % (P, pname)
 
 
@@ -89,7 +97,7 @@ class Enforcement:
 
 
 def expand_iv(view_rd, node, iv, keep=()):
-  ex = lambda e: view_rd.expand(node, e, keep=keep)[0]
+  ex = lambda e: view_rd.expand(node, e, keep=keep)[0] if e is not None else None
   return search.Interval(ex(iv.v), ex(iv.lo), ex(iv.hi), iv.closed_lo, iv.closed_hi, iv.accept_when)
 
 
@@ -101,34 +109,34 @@ def check_spec(kappa, iv, T, C, extra=None):
     if not okv:
       return False, 'the tested ratio `%s` is not share(control)/share(treatment) of the pushed groups (%s, %s)' % (vt, C, T)
     if not tol_bounds_ok(iv.lo, iv.hi, kappa):
-      return False, 'bounds (%s, %s) are not (1/(1+tol), 1+tol)' % (norm(iv.lo), norm(iv.hi))
+      return False, 'bounds (%s, %s) are not (1/(1+tol), 1+tol)' % (_bt(iv.lo), _bt(iv.hi))
     return True, ''
   if kappa == 'geo_ratio_tolerance':
     okv = vt in ('len(%s) / len(%s)' % (C, T), 'len(%s) / len(%s)' % (T, C)) or (extra and vt in extra)
     if not okv:
       return False, 'the tested ratio `%s` is not len(control)/len(treatment) of the pushed groups' % vt
     if not tol_bounds_ok(iv.lo, iv.hi, kappa):
-      return False, 'bounds (%s, %s) are not (1/(1+tol), 1+tol)' % (norm(iv.lo), norm(iv.hi))
+      return False, 'bounds (%s, %s) are not (1/(1+tol), 1+tol)' % (_bt(iv.lo), _bt(iv.hi))
     return True, ''
   if kappa == 'treatment_share_range':
     okv = vt in (share(T), '%s / %s' % (share(T), share('self.geo_assignments.all')))
     if not okv:
       return False, 'the tested share `%s` is not the share of the pushed treatment group %s (raw or relative to the admitted geos)' % (vt, T)
     if not range_bounds_ok(iv.lo, iv.hi, kappa):
-      return False, 'bounds (%s, %s) are not treatment_share_range[0], [1]' % (norm(iv.lo), norm(iv.hi))
+      return False, 'bounds (%s, %s) are not treatment_share_range[0], [1]' % (_bt(iv.lo), _bt(iv.hi))
     return True, ''
   if kappa == 'budget_range':
     if not re.fullmatch(r'(\w+)\.required_impact / %siroas' % re.escape(P), vt):
       return False, 'the tested budget `%s` is not required_impact / iroas of the pushed design' % vt
     if not range_bounds_ok(iv.lo, iv.hi, kappa):
-      return False, 'bounds (%s, %s) are not budget_range[0], [1]' % (norm(iv.lo), norm(iv.hi))
+      return False, 'bounds (%s, %s) are not budget_range[0], [1]' % (_bt(iv.lo), _bt(iv.hi))
     return True, ''
   if kappa in ('treatment_geos_range', 'control_geos_range'):
     grp = T if kappa == 'treatment_geos_range' else C
     if vt != 'len(%s)' % grp:
       return False, 'the tested size `%s` is not len(%s)' % (vt, grp)
     if not range_bounds_ok(iv.lo, iv.hi, kappa):
-      return False, 'bounds (%s, %s) are not %s[0], [1]' % (norm(iv.lo), norm(iv.hi), kappa)
+      return False, 'bounds (%s, %s) are not %s[0], [1]' % (_bt(iv.lo), _bt(iv.hi), kappa)
     return True, ''
   return False, 'unknown constraint'
 
@@ -146,7 +154,14 @@ def tests_of(repo, f, keep=()):
     if iv is None:
       continue
     ivx = expand_iv(ctx.rd, n, iv, keep)
-    out.append((n, ivx, others, classify_quantity(norm(ivx.v))))
+    q = classify_quantity(norm(ivx.v))
+    # the limits say which constraint a test belongs to: a test against the limits of kappa on some other quantity is a
+    # (wrong) kappa test, not a test of whatever its value happens to look like
+    btxt = ' '.join(norm(b) for b in (ivx.lo, ivx.hi) if b is not None)
+    qb = [k for k in CONSTRAINTS if ('parameters.' + k) in btxt]
+    if q != 'optimistic-budget' and len(qb) == 1 and qb[0] != q and not (q or '').startswith('size:'):
+      q = qb[0]
+    out.append((n, ivx, others, q))
   return out
 
 
